@@ -246,7 +246,7 @@ macro_rules! tuple_check {
 }
 
 pub fn check(rep: &Reporter) {
-	let maxlen = if rep.tier.thorough() { 5 } else { 4 };
+	let maxlen = if rep.tier.thorough() { 6 } else { 5 };
 	rep.set_rule(&format!(
 		"all insert sequences of length 0..{maxlen} over {} value kinds (scalars, strings needing escapes, Unicode, nested containers, unit struct, and five Serialize impls that fail before writing / inside a sequence / inside a map value / on a non-string key / inside a struct field) into ArrayParams and into ObjectParams under 3 key schemes (incl. duplicate and escaped keys); every history is distinct by construction; rpc_params! with 0..4 arguments over the non-failing kinds, tuples of arity 1..16, slices, arrays, Vec, serde_json::Map, BatchRequestBuilder with 0..3 entries. Oracle: serde_json::to_value of each inserted value and a pair-preserving parse of the emitted text.",
 		VS.len()
